@@ -42,8 +42,39 @@ def crc16(b):
     return crc
 
 
+def crc_zero_prefix_tcs(rng, want=6):
+    """Telecommand parameters for which the CRC of the 6-octet primary header, or of primary + secondary header, is exactly
+    0x0000 (a running checksum of zero must not be mistaken for 'not started'). Found by search with an independent CRC."""
+    out = []
+    for n in (0, 3, 1):
+        found = 0
+        for apid in rng.sample(range(2048), 2048):
+            for seq in range(16384):
+                hdr = [0x18 | (apid >> 8), apid & 0xFF, 0xC0 | (seq >> 8), seq & 0xFF, 0, 5 + n]
+                if crc16(hdr) == 0:
+                    out.append({"apid": apid, "seq": seq, "ack": 15, "service": 17, "subservice": 1, "source": 0,
+                                "data": [rng.randrange(256) for _ in range(n)]})
+                    found += 1
+                    break
+            if found >= 1:
+                break
+    # primary + secondary header: the 16-bit source ID can always be chosen to zero the running CRC
+    for _ in range(want - len(out)):
+        apid, seq, n = rng.randrange(2048), rng.randrange(16384), rng.choice([0, 2, 7])
+        pre = [0x18 | (apid >> 8), apid & 0xFF, 0xC0 | (seq >> 8), seq & 0xFF, 0, 5 + n, 0x2F, 17, 1]
+        for src in range(65536):
+            if crc16(pre + [src >> 8, src & 0xFF]) == 0:
+                out.append({"apid": apid, "seq": seq, "ack": 15, "service": 17, "subservice": 1, "source": src,
+                            "data": [rng.randrange(256) for _ in range(n)]})
+                break
+    return out
+
+
 def events(ctx):
     rng = ctx.rng
+    for p in crc_zero_prefix_tcs(rng):
+        for via in ("ctor", "setter", "bytearray"):
+            yield record("tc.rt", {"p": p, "sfx": [], "via": via})
     for n in ctx.q(SIZES_Q, SIZES_T):
         for via in ("ctor", "sph", "composite"):
             yield record("tc.rt", {"p": rand_params(rng, n), "sfx": [], "via": via})
@@ -57,7 +88,7 @@ def events(ctx):
             yield record("tc.rt", {"p": p, "sfx": [], "via": "ctor"})
     for _ in range(ctx.q(20000, 1000000)):
         sfx = [] if rng.random() < 0.6 else [rng.randrange(256) for _ in range(rng.randrange(1, 20))]
-        yield record("tc.rt", {"p": rand_params(rng), "sfx": sfx, "via": rng.choice(["ctor", "ctor", "sph", "composite", "setter", "bytearray"])})
+        yield record("tc.rt", {"p": rand_params(rng), "sfx": sfx, "via": rng.choice(["ctor", "ctor", "sph", "composite", "setter", "bytearray", "empty"])})
     # raw strings: random, valid packets with mutated octets, random declared lengths with matching CRC
     for _ in range(ctx.q(20000, 600000)):
         kind = rng.randrange(4)
